@@ -266,6 +266,10 @@ def _index(ctx, args, ck):
         r.char_range()  # char boundary check -> RustPanic
         return r
     sl = as_slice(ctx, base)
+    if isinstance(idx, Int) and idx.sym() and ck.name == 'index' and len(sl) > 8:
+        r = symbolic_select(ctx, sl, idx)
+        if r is not None:
+            return r
     if isinstance(idx, Int):
         i = ctx.concretize(idx, 0, len(sl))
         if i is None:
@@ -273,6 +277,81 @@ def _index(ctx, args, ck):
         return Ref(sl.cont, sl.lo + i)
     a, b = range_bounds(ctx, idx, len(sl))
     return SliceRef(sl.cont, sl.lo + a, sl.lo + b)
+
+
+def feasible_values(ctx, x, limit=72):
+    """Enumerate the values a symbolic integer can take on this path (solver models), or None if more than limit."""
+    vals = []
+    ctx.solver.push()
+    try:
+        while True:
+            r = ctx._check()
+            if r != z3.sat:
+                break
+            v = ctx.solver.model().eval(x.v, model_completion=True).as_long()
+            vals.append(v)
+            if len(vals) > limit:
+                return None
+            ctx.solver.add(x.v != z3.BitVecVal(v, x.bits))
+    finally:
+        ctx.solver.pop()
+    return sorted(vals)
+
+
+def symbolic_select(ctx, sl, idx):
+    """Read-only `v[idx]` with a symbolic index whose feasible values are few: returns a reference to an element built as
+    if-then-else over the feasible entries (entries must be integers or equally long vectors of integers); forks only
+    over out-of-bounds / different shapes."""
+    vals = feasible_values(ctx, idx)
+    if vals is None or not vals:
+        return None
+    n = len(sl)
+    if any(v >= n for v in vals):
+        if ctx.branch(z3.UGE(idx.v, n)):
+            raise RustPanic('index out of bounds: the len is %d' % n, 'index')
+        vals = [v for v in vals if v < n]
+    items = [sl.cont[sl.lo + v] for v in vals]
+    if len(vals) == 1:
+        return Ref(sl.cont, sl.lo + vals[0])
+
+    def shape_of(it):
+        it = ctx.m.peel(it)
+        if isinstance(it, Int):
+            return ('int', it.ty)
+        if isinstance(it, VecObj) and all(isinstance(x, Int) for x in it.items):
+            return ('vec', len(it.items), it.items[0].ty if it.items else None)
+        return None
+    shapes = [shape_of(it) for it in items]
+    if any(sh is None for sh in shapes):
+        return None
+    groups = {}
+    for v, it, sh in zip(vals, items, shapes):
+        groups.setdefault(sh, []).append((v, ctx.m.peel(it)))
+    keys = list(groups)
+    chosen = keys[-1]
+    for sh in keys[:-1]:
+        cond = z3.Or(*[idx.v == z3.BitVecVal(v, idx.bits) for v, _ in groups[sh]])
+        if ctx.branch(cond):
+            chosen = sh
+            break
+    grp = groups[chosen]
+
+    def ite(parts):
+        t = parts[-1][1].z()
+        for v, x in reversed(parts[:-1]):
+            t = z3.If(idx.v == z3.BitVecVal(v, idx.bits), x.z(), t)
+        return t
+    if chosen[0] == 'int':
+        return Ref([Int(ite(grp), chosen[1])], 0)
+    ln = chosen[1]
+    elems = []
+    for j in range(ln):
+        col = [(v, it.items[j]) for v, it in grp]
+        if all(isinstance(x.v, int) and x.v == col[0][1].v for _, x in col):
+            elems.append(col[0][1])
+        else:
+            elems.append(Int(ite(col), chosen[2]))
+    return Ref([VecObj(elems)], 0)
 
 
 # =============================================================== slices
